@@ -356,6 +356,15 @@ class Check:
                     known_hits.setdefault(kf["id"], [kf, 0])[1] += 1
                 else:
                     violations.append((s, v))
+        # fault sweep: one fault at every fault point of a few seeded base scenarios (cijsim/sweep.py)
+        if self.prop != "C09" and not os.environ.get("VERIF_NO_SWEEP"):
+            try:
+                self.sweep(pool, scs, agg, harness, violations, known_hits)
+                if self.prop in ("C12", "C14", "C15", "C19"):
+                    self.sweep_interleavings(pool, scs, agg, harness, violations, known_hits)
+            except Exception as e:  # the sweep is part of the check: its failure is a harness error, never silence
+                import traceback
+                harness.append(f"fault sweep failed: {type(e).__name__}: {e} {traceback.format_exc()[-400:]}")
         # determinism self-check: re-run 5 % of the seeds on another zygote, compare event logs
         nd = max(2, len(done_seeds) // 20) if done_seeds else 0
         redo = done_seeds[:: max(1, len(done_seeds) // nd)][:nd] if nd else []
@@ -413,6 +422,132 @@ class Check:
         print(f"{self.prop} {self.tier}: {len(done_seeds)} scenarios, {agg.parts} parts, {agg.ops} operations, "
               f"{len(violations)} violations, {sum(n for _, n in known_hits.values())} known-finding hits, {len(harness)} harness errors, {wall:.1f}s")
         return rc
+
+    def sweep(self, pool, scs, agg, harness, violations, known_hits):
+        from cijsim import sweep as SW
+        nb = {"quick": 6, "thorough": 30}[self.tier]
+        cap = {"quick": 36, "thorough": 400}[self.tier]
+        wall = {"quick": 60.0, "thorough": 700.0}[self.tier]
+        deadline = time.monotonic() + wall
+        seeds = [derive_seed(self.base_seed, 100000 + j) for j in range(nb)]
+        bases = {s: SW.base_scenario(self.prop, s, self.tier) for s in seeds}
+        pj = [{"id": f"pb:{s}", "hash": 0, "scenario": dict(b, _profile=True), "mode": "session", "client": None, "oracles": []} for s, b in bases.items()]
+        pres = pool.run_jobs(pj, deadline=deadline)
+        jobs, var = [], {}
+        for s, b in bases.items():
+            r = pres.get(f"pb:{s}")
+            if r is None or "harness_error" in r:
+                if r is not None:
+                    harness.append(f"sweep base {s}: {r['harness_error']}")
+                continue
+            vs = SW.variants(b, r.get("profile") or [], s, cap)
+            if self.prop in NEEDS_SOLO:
+                for c in b["programs"]:
+                    jobs.append({"id": f"sb:{s}:{c}", "hash": 0, "scenario": b, "mode": "solo", "client": c, "oracles": self.oracles})
+            for k, sc in enumerate(vs):
+                var[(s, k)] = sc
+                jobs.append({"id": f"sv:{s}:{k}", "hash": 0, "scenario": sc, "mode": "session", "client": None, "oracles": self.oracles})
+        res = pool.run_jobs(jobs, deadline=deadline)
+        st = agg.sweep
+        st["bases"] = len(bases)
+        for (s, k), sc in var.items():
+            r = res.get(f"sv:{s}:{k}")
+            if r is None:
+                st["not_run_in_time"] = st.get("not_run_in_time", 0) + 1
+                continue
+            parts = {("session", None): r}
+            ok = True
+            for c in sc["programs"]:
+                sr = res.get(f"sb:{s}:{c}")
+                if self.prop in NEEDS_SOLO:
+                    if sr is None:
+                        ok = False
+                    else:
+                        parts[("solo", c)] = {kk: vv for kk, vv in sr.items() if kk != "scenario_digest"}
+            if not ok:
+                continue
+            vds, errs = self.evaluate(sc, parts)
+            harness += [f"sweep {s}#{k}: {e}" for e in errs]
+            st["variants"] = st.get("variants", 0) + 1
+            bk = st.setdefault("by_fault", {})
+            bk[sc["sweep_fault"]] = bk.get(sc["sweep_fault"], 0) + 1
+            if "harness_error" not in r:
+                fired = sum(r["stats"]["faults_fired"].values())
+                st["fired"] = st.get("fired", 0) + (1 if fired else 0)
+                agg.add(sc, {("session", None): r}, vds)
+            key = f"{s}#{k}"
+            scs[key] = sc
+            for v in vds:
+                kf = match_known(v, self.known)
+                if kf is not None:
+                    known_hits.setdefault(kf["id"], [kf, 0])[1] += 1
+                else:
+                    violations.append((key, dict(v, sweep=sc["sweep_fault"])))
+
+    def sweep_interleavings(self, pool, scs, agg, harness, violations, known_hits):
+        """one ping-pong switch point at (the first execution of) every distinct source line of a member of a two-client segment"""
+        from cijsim import sweep as SW
+        nb = {"quick": 3, "thorough": 12}[self.tier]
+        cap = {"quick": 24, "thorough": 300}[self.tier]
+        wall = {"quick": 45.0, "thorough": 500.0}[self.tier]
+        deadline = time.monotonic() + wall
+        seeds = [derive_seed(self.base_seed, 200000 + j) for j in range(nb)]
+        bases = {}
+        for s in seeds:
+            b = SW.pair_base(self.prop, s, self.tier)
+            if b is not None:
+                bases[s] = b
+        pres = pool.run_jobs([{"id": f"pi:{s}", "hash": 0, "scenario": SW.sequential_twin(b), "mode": "session", "client": None, "oracles": []} for s, b in bases.items()],
+                             deadline=deadline)
+        jobs, var = [], {}
+        for s, b in bases.items():
+            r = pres.get(f"pi:{s}")
+            if r is None or "harness_error" in r:
+                if r is not None:
+                    harness.append(f"interleaving sweep base {s}: {r['harness_error']}")
+                continue
+            if self.prop in NEEDS_SOLO:
+                for c in b["programs"]:
+                    jobs.append({"id": f"ib:{s}:{c}", "hash": 0, "scenario": b, "mode": "solo", "client": c, "oracles": self.oracles})
+            for k, sc in enumerate(SW.interleavings(b, r.get("profile") or [], s, cap)):
+                var[(s, k)] = sc
+                jobs.append({"id": f"iv:{s}:{k}", "hash": 0, "scenario": sc, "mode": "session", "client": None, "oracles": self.oracles})
+        res = pool.run_jobs(jobs, deadline=deadline)
+        st = agg.sweep.setdefault("interleavings", {})
+        st["bases"] = len(bases)
+        for (s, k), sc in var.items():
+            r = res.get(f"iv:{s}:{k}")
+            if r is None:
+                st["not_run_in_time"] = st.get("not_run_in_time", 0) + 1
+                continue
+            parts = {("session", None): r}
+            ok = True
+            if self.prop in NEEDS_SOLO:
+                for c in sc["programs"]:
+                    sr = res.get(f"ib:{s}:{c}")
+                    if sr is None:
+                        ok = False
+                    else:
+                        parts[("solo", c)] = {kk: vv for kk, vv in sr.items() if kk != "scenario_digest"}
+            if not ok:
+                continue
+            vds, errs = self.evaluate(sc, parts)
+            harness += [f"interleaving sweep {s}#{k}: {e}" for e in errs]
+            st["variants"] = st.get("variants", 0) + 1
+            bp = st.setdefault("by_pair", {})
+            bp[sc["sweep_fault"]] = bp.get(sc["sweep_fault"], 0) + 1
+            if "harness_error" not in r:
+                st["switched"] = st.get("switched", 0) + (1 if r["stats"].get("switches", 0) else 0)
+                st["both_in_same_function"] = st.get("both_in_same_function", 0) + r["stats"]["probes"].get("pingpong_both_in_same_function", 0)
+                agg.add(sc, {("session", None): r}, vds)
+            key = f"{s}@{k}"
+            scs[key] = sc
+            for v in vds:
+                kf = match_known(v, self.known)
+                if kf is not None:
+                    known_hits.setdefault(kf["id"], [kf, 0])[1] += 1
+                else:
+                    violations.append((key, dict(v, sweep=sc["sweep_fault"], site=sc.get("sweep_site"))))
 
     def write_replay(self, pool, sc, v, sig, k=0):
         os.makedirs(REPLAY_DIR, exist_ok=True)
@@ -478,6 +613,7 @@ class Aggregate:
         self.clients_hist = {}
         self.op_kinds = {}
         self.switch_sites = {}
+        self.sweep = {}
 
     @staticmethod
     def _merge(dst, src):
@@ -567,6 +703,10 @@ class Aggregate:
                 "perturbations": self.seam, "hash_seeds_session": self.hash_seeds,
                 "distinct_operation_interleavings": len(self.interleavings),
                 "clients_per_session": self.clients_hist, "operation_kinds_generated": self.op_kinds,
+                "fault_sweep": dict(self.sweep, rule="seeded single-client base scenarios executed once under a profiler, then once per fault point with exactly one "
+                                    "fault there (open-fail at every open, read-fail after 1/2/4 reads at every read open, write-torn keeping 0/50/100 % at every write "
+                                    "open, list-fail, cancel / alloc-fail at the first execution of every distinct cij source line of the operation, at a later execution of half of them, and "
+                                    "on a geometric ladder of positions); variants beyond the cap are sampled by the seeded PRNG"),
                 "probes": self.probes, "coverage_tables": self.coverage,
                 "determinism_reruns": self.determinism_reruns,
                 "known_finding_hits": {k: n for k, (_, n) in known_hits.items()},
